@@ -22,7 +22,8 @@ var base1D = []string{"utils.New1DCode", "utils.New1DCodeWithColor", "utils.New1
 	"utils.(*base1DCode).Bounds", "utils.(*base1DCode).At", "utils.(*base1DCodeIntCS).CheckSum"}
 
 var bitlistFuncs = []string{"utils.NewBitList", "utils.(*BitList).Len", "utils.(*BitList).grow", "utils.(*BitList).AddBit",
-	"utils.(*BitList).SetBit", "utils.(*BitList).GetBit", "utils.(*BitList).AddByte", "utils.(*BitList).AddBits", "utils.(*BitList).GetBytes"}
+	"utils.(*BitList).SetBit", "utils.(*BitList).GetBit", "utils.(*BitList).AddByte", "utils.(*BitList).AddBits", "utils.(*BitList).GetBytes",
+	"utils.(*BitList).IterateBytes", "utils.(*BitList).IterateBytes$1"}
 
 var gfFuncs = []string{"utils.(*GaloisField).AddOrSub", "utils.(*GaloisField).Multiply", "utils.(*GaloisField).Divide", "utils.(*GaloisField).Invers",
 	"utils.lemmaMulComm", "utils.lemmaMulAssoc", "utils.lemmaInverse", "utils.lemmaDivUndoesMul", "utils.lemmaDivIsMulInverse"}
@@ -139,7 +140,8 @@ var props = []*PropDef{
 		ID:     "C10",
 		Level:  "other",
 		Unwind: []*Unwinder{unwEAN, unwPDF, unwAztec, unwDM, unwSelect, unwQRBlocks},
-		Funcs:  append(append([]string{}, bitlistFuncs...), "utils.(*GaloisField).Multiply", "utils.(*GaloisField).Divide", "utils.(*GaloisField).Invers"),
+		Funcs: append(append([]string{}, bitlistFuncs...), "utils.(*GaloisField).Multiply", "utils.(*GaloisField).Divide", "utils.(*GaloisField).Invers",
+			"twooffive.EncodeWithColor", "twooffive.Encode", "twooffive.AddCheckSum", "datamatrix.addPadding"),
 		Harness: []Harness{
 			{Pkg: "qr", File: "c01_qr_test.go", Run: "^TestVerifC10QR$", Bound: boundedNote + "no panic, result xor error, accept iff expressible in the mode and within version-40 capacity"},
 			{Pkg: "datamatrix", File: "c02_dm_test.go", Run: "^TestVerifC10DM$", Bound: boundedNote + "accept iff <= 1558 ASCII-encodation codewords"},
@@ -152,11 +154,11 @@ var props = []*PropDef{
 			{Pkg: "twooffive", File: "c08_twooffive_test.go", Run: "^TestVerifC10TwoOfFive$", Bound: boundedNote},
 		},
 		Assumptions: []string{asmBitlist, asmStages, asmUTF8, "the zero-annotation no-panic sweep (bounds, nil, division, slice, conversion, explicit panic obligations) is discharged for the functions executed by the unwinding families (EAN completely; PDF417, Aztec drawing, DataMatrix render/ECC per configuration) and for the utils functions under contract; the string-processing front ends of the other symbologies are covered by the bounded stand-ins only"},
-		Note:        "Safety obligations (index, slice, nil, division by zero, conversion, explicit panic, overflow) generated for every instruction executed by the [C] families and the [P] functions are all discharged; exact acceptance is proved for EAN (all inputs) and PDF417 (by codeword count), bounded elsewhere.",
+		Note:        "Safety obligations (index, slice, nil, division by zero, conversion, explicit panic, overflow) generated for every instruction executed by the [C] families and the [P] functions are all discharged; exact acceptance is proved for EAN and 2 of 5 (all inputs), PDF417 (by codeword count), the QR/DataMatrix/Aztec size selections; bounded elsewhere.",
 	},
 	{
 		ID:     "C11",
-		Funcs:  base1D,
+		Funcs:  append([]string{"twooffive.EncodeWithColor", "twooffive.Encode"}, base1D...),
 		Unwind: []*Unwinder{unwEAN, unwAztec, unwDM, unwPDF, unwQR},
 		// of the aztec family only the obligations about the result object's accessors belong here
 		// (the empty-payload defect F6 shows up in the mode message: C03/C10)
@@ -236,13 +238,13 @@ var props = []*PropDef{
 		Funcs: bitlistFuncs,
 		BV:    true,
 		Harness: []Harness{
-			{Pkg: "utils", File: "c18_bitlist_test.go", Run: "^TestVerifC18$", Bound: "IterateBytes (goroutine+channel, outside the proof subset) compared with GetBytes and the bool-sequence model for every length 0..4200 and seeded random operation sequences across grow/word/byte boundaries"},
+			{Pkg: "utils", File: "c18_bitlist_test.go", Run: "^TestVerifC18$", Bound: "cross-check of the proofs on the running code: IterateBytes (real goroutine + channel) compared with GetBytes and the bool-sequence model for every length 0..4200 and seeded random operation sequences across grow/word/byte boundaries"},
 		},
 		Assumptions: []string{
 			"bit operators on symbolic operands are uninterpreted functions constrained by axioms; every axiom is re-proved in QF_BV at the operand width on each run (obligations axiom/*)",
-			"IterateBytes (byte channel view) is only covered by the bounded stand-in, not by a discharged obligation",
+			"IterateBytes: proof-mode channel model (a channel is the sequence of values sent + a closed flag; a receiver sees that sequence in order: Go channel semantics, trusted); the goroutine is verified against its own contract, its precondition is checked at the go statement; the caller must not modify the list while the goroutine runs",
 		},
-		Note: "Every BitList method is verified against the ghost bool-sequence model `model` with representation invariant inv(bl); the all-operation-sequences quantifier is the invariant (each method preserves inv and transforms model as the sequence semantics says).",
+		Note: "Every BitList method is verified against the ghost bool-sequence model `model` with representation invariant inv(bl); the all-operation-sequences quantifier is the invariant (each method preserves inv and transforms model as the sequence semantics says). IterateBytes: the goroutine it starts sends exactly (count+7)/8 bytes whose bits are the model, most significant bit first, zero padded, then closes the channel (loop invariant over the real loop; send on closed / double close unreachable).",
 	},
 }
 
